@@ -64,6 +64,52 @@ BASE_T, REFL_T = D + "get_base_face_triangle", D + "get_reflected_face_triangle"
 _gft_cache = {}
 
 
+_refl_cache = {}
+
+
+def _refl_squashed(facts, v):
+    """1 / 0: does get_reflected_face_triangle build the squashed triangle when its selector parameter has value v?
+    Decided by what the function does, not by what the parameter is called or typed: under that value the apex is moved by
+    `midpoint * scale`; scale == 2.0 is the plain reflection, scale == 1 + 1/cos(INTERHEDRAL_ANGLE) the squashed one."""
+    key = (id(facts), v)
+    if key in _refl_cache:
+        return _refl_cache[key]
+    import math
+    from ..query import assumptions_by_eval, returns_under, deep_resolve, fconst, Undetermined
+    from ..consts import const_py
+    fr = fn_terms(facts, REFL_T)
+    env = {("param", 3): v, ("discr", ("param", 3)): v}
+    A = assumptions_by_eval(fr, env)
+    vals = set()
+    for rt in returns_under(fr, A):
+        rt = deep_resolve(fr, rt, A)
+        for x in walk(rt):
+            if x[0] == "bin" and x[1] == "Mul":
+                for side in (x[2], x[3]):
+                    cv = fconst(side)
+                    if cv is None and any(y[0] == "call" and isinstance(y[1], str) and y[1].endswith("::cos") for y in walk(side)) \
+                            and not any(y[0] in ("param", "phi") for y in walk(side)):
+                        try:
+                            from ..query import feval
+                            cv = feval(side, {})
+                        except Exception:
+                            cv = None
+                        if cv is None:
+                            cv = float("nan")        # a closed expression over cos(..) of a constant: not the plain factor 2
+                    if cv is not None:
+                        vals.add(round(cv, 12) if cv == cv else cv)
+    ih = const_py(facts, "a5::core::constants::INTERHEDRAL_ANGLE")
+    while isinstance(ih, (dict, list, tuple)) and ih:
+        ih = list(ih.values())[0] if isinstance(ih, dict) else ih[0]
+    sq_scale = round(1.0 + 1.0 / math.cos(ih), 12) if isinstance(ih, float) else None
+    plain = 2.0 in vals
+    squashed = any((x != x) or (sq_scale is not None and abs(x - sq_scale) < 1e-9) for x in vals)
+    if plain == squashed:
+        raise Undetermined("cannot tell the plain from the squashed reflection for selector value %r (scales %s)" % (v, sorted(vals)))
+    _refl_cache[key] = 1 if squashed else 0
+    return _refl_cache[key]
+
+
 def gft_dispatch(facts):
     """What get_face_triangle builds, as a function of its selector parameters (everything after self and the index:
     two bools in the reference, possibly an enum): {values: ('base',) | ('refl', squashed)}.  Obtained by finite
@@ -105,7 +151,7 @@ def gft_dispatch(facts):
                         if c.callee == BASE_T:
                             leafs.add(("base",))
                         elif c.callee == REFL_T:
-                            leafs.add(("refl", ieval(ft, c.args[2], env, A)))
+                            leafs.add(("refl", _refl_squashed(facts, ieval(ft, c.args[2], env, A))))
                 except Undetermined as e:
                     why = "squashed flag of the reflected triangle is not a function of the selector parameters (%s)" % e
                     break
